@@ -51,6 +51,7 @@ def fam_loops():
         out.append((f"lp_break_{nm}", _loop(f"vn = d0.Setting\nacc = 0\nfor idx in {r}:\n    if idx == 2:\n        break\n    acc = acc + 1\nd1.Setting = acc")))
     out.append(("lp_named_neg_step", HEADER + "stp = -2\nwhile True:\n    vn = d0.Setting\n    acc = 0\n    for idx in range(5, vn, stp):\n        acc = acc + idx\n        d1.Setting = idx\n    d2.Setting = acc\n    yield_()\n"))
     out.append(("lp_named_pos_step", HEADER + "stp = 2\nlim = 5\nwhile True:\n    vn = d0.Setting\n    for idx in range(vn, lim, stp):\n        d1.Setting = idx\n    yield_()\n"))
+    out.append(("lp_boundexpr_main", _loop("vn = d0.Setting\nacc = 0\nfor idx in range(vn * 2 + 1):\n    acc += (idx + 1) * (idx + 2)\nd1.Setting = acc")))
     out.append(("lp_nested", _loop("acc = 0\nfor ia in range(2):\n    for ib in range(3):\n        acc = acc + ia * ib\nd0.Setting = acc")))
     out.append(("lp_nested_dev", _loop("vn = d0.Setting\nacc = 0\nfor ia in range(2):\n    for ib in range(2):\n        acc = acc + vn + ia\nd1.Setting = acc")))
     out.append(("lp_while_break", _loop("cnt = 0\nwhile True:\n    cnt = cnt + 1\n    if cnt > d0.Setting:\n        break\n    if cnt > 3:\n        break\nd1.Setting = cnt")))
@@ -91,6 +92,7 @@ def fam_functions():
     out.append(("fn_tail_to_once_called", HEADER + "def leaf(xa):\n    d1.Setting = xa\ndef outer(xa):\n    d2.Setting = xa\n    leaf(xa + 1)\nwhile True:\n    outer(d0.Setting)\n    outer(2)\n    d3.On = 1\n    yield_()\n"))
     out.append(("fn_once_called_tail", HEADER + "def gg(xa):\n    d1.Setting = xa\ndef once(xa):\n    d2.Setting = xa\n    gg(xa + 1)\nwhile True:\n    once(d0.Setting)\n    gg(5)\n    d3.On = 1\n    yield_()\n"))
     out.append(("fn_forlist_once", HEADER + "def aloop(xa):\n    for val in [10, 20]:\n        d1.Setting = val + xa\ndef zlast(xa):\n    d2.Setting = xa\nwhile True:\n    aloop(d0.Setting)\n    zlast(1)\n    zlast(2)\n    yield_()\n"))
+    out.append(("fn_boundexpr_func", HEADER + "def total(xn):\n    acc = 0\n    for idx in range(1, xn * 2 + 1):\n        acc += (idx + 1) * (idx + 2)\n    return acc\nwhile True:\n    d1.Setting = total(d0.Setting)\n    d2.Setting = total(1)\n    yield_()\n"))
     out.append(("fn_uncalled", HEADER + "def fa(xa):\n    return xa + 1\ndef fnever(xa):\n    d3.Setting = xa\n    return 0\nwhile True:\n    d1.Setting = fa(d0.Setting)\n    yield_()\n"))
     return out
 
